@@ -1211,7 +1211,7 @@ def history_label(case):
         if not lin0 and lin1:
             lab.add("became-linear")
         if var_period(v) and not hom1:
-            lab.add("stale-periodic")
+            lab.add("periodicity-refreshed")
         if not all(p_[2] for p_ in ps):
             lab.add("component-off")
     return "history:" + "+".join(sorted(lab))
